@@ -155,6 +155,8 @@ pub async fn new_handler(u: &Universe, records: Option<&[Record]>, axfr: AxfrPol
 
 pub fn new_journal() -> Journal {
     let conn = Connection::open_in_memory().expect("sqlite");
+    // small pages, so that an armed disk-full fault is reached within a few rows
+    conn.execute_batch("PRAGMA page_size = 512").expect("page_size");
     let mut j = Journal::new(conn).expect("journal");
     j.schema_up().expect("schema");
     j
@@ -655,3 +657,409 @@ pub fn def_c12() -> CheckDef {
 
 #[allow(dead_code)]
 fn _unused(_: Mutex<()>) {}
+
+// ==========================================================================================
+// C14 — journal-backed zones survive a stop at any point
+
+#[derive(Serialize, Deserialize, Clone, Debug)]
+struct C14Plan {
+    sim: SimConfig,
+    initial_serial: u32,
+    msgs: Vec<UpdateMsg>,
+    /// history issued after recovery (on the recovered server and on a never-crashed twin)
+    post: Vec<UpdateMsg>,
+    /// which crash boundary (index into the sorted list, modulo its length) gets the post phase
+    post_pick: u64,
+    /// inject "disk full" before this message index (None = never)
+    disk_full_before: Option<usize>,
+    /// how many more pages the journal may grow once the disk-full fault is armed
+    disk_full_slack: u32,
+}
+
+pub struct C14Part;
+
+#[derive(Default)]
+struct Hooked {
+    /// committed rows
+    rows: u64,
+    /// rows inserted since the last commit
+    pending: u64,
+    /// row count at every commit
+    boundaries: Vec<u64>,
+}
+
+fn install_hooks(j: &Journal, st: Arc<Mutex<Hooked>>) {
+    let conn = j.conn();
+    let s1 = st.clone();
+    conn.update_hook(Some(move |_a: rusqlite::hooks::Action, _db: &str, table: &str, _row: i64| {
+        if table == "records" {
+            s1.lock().unwrap().pending += 1;
+        }
+    }))
+    .expect("update_hook");
+    let s2 = st.clone();
+    conn.commit_hook(Some(move || {
+        let mut g = s2.lock().unwrap();
+        g.rows += g.pending;
+        g.pending = 0;
+        let r = g.rows;
+        g.boundaries.push(r);
+        false
+    }))
+    .expect("commit_hook");
+    let s3 = st;
+    conn.rollback_hook(Some(move || {
+        s3.lock().unwrap().pending = 0;
+    }))
+    .expect("rollback_hook");
+}
+
+type Row = (i64, i64, String, Vec<u8>);
+
+fn read_rows(j: &Journal) -> Vec<Row> {
+    let conn = j.conn();
+    let mut stmt = conn.prepare("SELECT client_id, soa_serial, timestamp, record FROM records ORDER BY _rowid_").expect("prepare");
+    let rows = stmt.query_map([], |r| Ok((r.get::<_, i64>(0)?, r.get::<_, i64>(1)?, r.get::<_, String>(2)?, r.get::<_, Vec<u8>>(3)?))).expect("query");
+    rows.map(|r| r.expect("row")).collect()
+}
+
+fn journal_from_rows(rows: &[Row]) -> Journal {
+    let j = new_journal();
+    {
+        let conn = j.conn();
+        for (c, s, t, r) in rows {
+            conn.execute("INSERT INTO records (client_id, soa_serial, timestamp, record) VALUES (?1, ?2, ?3, ?4)", rusqlite::params![c, s, t, r]).expect("insert");
+        }
+    }
+    j
+}
+
+type ZoneState = (BTreeMap<Key, BTreeSet<String>>, u32);
+
+struct Trace {
+    /// state after the dump, then after every message
+    states: Vec<ZoneState>,
+    rows_before: Vec<u64>,
+    rows_after: Vec<u64>,
+    rcodes: Vec<ResponseCode>,
+}
+
+async fn send_update(server: &Server, u: &Universe, id: u16, m: &UpdateMsg) -> Result<ResponseCode, String> {
+    let mut msg = build_update_message(u, id, m);
+    msg.finalize(&signer(), SimTime::current_time()).map_err(|e| format!("sign: {e}"))?;
+    let bytes = msg.to_vec().map_err(|e| format!("encode: {e}"))?;
+    match server.handle::<SimTime>(bytes, Protocol::Tcp).await? {
+        Some(b) => Ok(Message::from_vec(&b).map_err(|e| format!("response decode: {e}"))?.metadata.response_code),
+        None => Err("no response".into()),
+    }
+}
+
+async fn run_history(server: &Server, u: &Universe, msgs: &[UpdateMsg], hooked: &Arc<Mutex<Hooked>>, id_base: u16, disk_full: Option<(usize, u32)>) -> Result<Trace, String> {
+    let (z, s, _) = server.dump().await;
+    let mut t = Trace { states: vec![(z, s)], rows_before: vec![], rows_after: vec![], rcodes: vec![] };
+    for (i, m) in msgs.iter().enumerate() {
+        if let Some((at, slack)) = disk_full {
+            if at == i {
+                let guard = server.handler.journal().await;
+                if let Some(j) = guard.as_ref() {
+                    let conn = j.conn();
+                    let pages: i64 = conn.query_row("PRAGMA page_count", [], |r| r.get(0)).unwrap_or(0);
+                    let _: i64 = conn.query_row(&format!("PRAGMA max_page_count = {}", pages + slack as i64), [], |r| r.get(0)).unwrap_or(0);
+                    exec::count("fault.disk_full_armed");
+                }
+            }
+        }
+        t.rows_before.push(hooked.lock().unwrap().rows);
+        let rc = send_update(server, u, id_base + i as u16, m).await?;
+        t.rows_after.push(hooked.lock().unwrap().rows);
+        t.rcodes.push(rc);
+        if rc == ResponseCode::ServFail {
+            exec::count("probe.servfail_answer");
+        }
+        let (z, s, _) = server.dump().await;
+        t.states.push((z, s));
+    }
+    Ok(t)
+}
+
+impl Part for C14Part {
+    fn name(&self) -> &'static str {
+        "crash"
+    }
+    fn runs(&self, tier: Tier) -> u64 {
+        match tier {
+            Tier::Quick => 6_000,
+            Tier::Thorough => 300_000,
+        }
+    }
+    fn block(&self, _t: Tier) -> u64 {
+        32
+    }
+    fn gen(&self, seed: u64, _tier: Tier) -> Value {
+        let mut r = Rng::new(seed);
+        let sim = SimConfig::from_seed(seed);
+        let strip = |mut h: Vec<UpdateMsg>| {
+            // prerequisites are not what C14 is about (and their evaluation has known
+            // deviations recorded under C12): histories here carry none
+            for m in h.iter_mut() {
+                m.prereq.clear();
+            }
+            h
+        };
+        let wild = r.chance(1, 4);
+        let msgs = strip(gen_history(&mut r, 5, wild));
+        let post = if r.chance(2, 3) { strip(gen_history(&mut r, 2, false)) } else { vec![] };
+        let disk_full_before = if r.chance(1, 5) { Some(r.usize_below(msgs.len())) } else { None };
+        serde_json::to_value(C14Plan {
+            sim,
+            initial_serial: *r.pick(&[100u32, 100, 0xFFFF_FFFE, 0x7FFF_FFFF]),
+            msgs,
+            post,
+            post_pick: r.next_u64() % 1000,
+            disk_full_before,
+            disk_full_slack: r.below(2) as u32,
+        })
+        .unwrap()
+    }
+    fn run(&self, plan: &Value, trace: bool) -> Report {
+        let mut p: C14Plan = serde_json::from_value(plan.clone()).expect("plan");
+        p.sim.trace = trace;
+        let (mut sig, _) = history_sig(&p.msgs);
+        sig = mix(sig ^ (p.disk_full_before.is_some() as u64) << 60 ^ (p.post.len() as u64) << 56);
+        let nontrivial = p.msgs.iter().any(|m| m.update.len() >= 1);
+        let p2 = p.clone();
+        let out = exec::run(&p.sim, async move { c14_scenario(p2).await });
+        finish(out, sig, nontrivial, "C14.stall")
+    }
+    fn shrink(&self, plan: &Value) -> Vec<Value> {
+        let Ok(p) = serde_json::from_value::<C14Plan>(plan.clone()) else { return vec![] };
+        let mut out = Vec::new();
+        for m in shrink_history(&p.msgs) {
+            let mut q = p.clone();
+            q.msgs = m;
+            if let Some(d) = q.disk_full_before {
+                q.disk_full_before = Some(d.min(q.msgs.len().saturating_sub(1)));
+            }
+            out.push(q);
+        }
+        if !p.post.is_empty() {
+            let mut q = p.clone();
+            q.post.clear();
+            out.push(q);
+            for m in shrink_history(&p.post) {
+                let mut q = p.clone();
+                q.post = m;
+                out.push(q);
+            }
+        }
+        if p.disk_full_before.is_some() {
+            let mut q = p.clone();
+            q.disk_full_before = None;
+            out.push(q);
+        }
+        if p.initial_serial != 100 {
+            let mut q = p.clone();
+            q.initial_serial = 100;
+            out.push(q);
+        }
+        out.into_iter().map(|q| serde_json::to_value(q).unwrap()).collect()
+    }
+    fn describe(&self) -> Describe {
+        Describe {
+            rule: "plan = history of 1-5 TSIG-signed UPDATE messages (forms as in C12, no prerequisites) on a journal-backed zone, the initial persist_to_journal dump included; EVERY commit boundary of the journal (SQLite commit_hook) is a crash point: a new journal holding exactly the rows committed up to it is recovered with the real recover_with_journal and compared with the server's own pre-crash states; one boundary per run additionally gets a post-recovery history compared against a never-crashed twin; 1 run in 5 arms a disk-full fault (PRAGMA max_page_count) before a chosen message; non-trivial = at least one update RR; distinct by history forms x disk-full x post length".into(),
+            real: vec!["Catalog::update -> SqliteZoneHandler::update/update_records", "Journal::{insert_record(s), iter, select_record, schema_up} on in-memory SQLite", "SqliteZoneHandler::{persist_to_journal, recover_with_journal}", "InMemoryZoneHandler / RecordSet", "TSIG signing and verification"],
+            stub: vec!["crash = copying the committed row prefix into a fresh in-memory journal (the storage seam is SQLite's commit boundary)", "transport"],
+            assumptions: vec!["an SQLite commit is atomic and durable; nothing between two commits is durable", "try_from_config's 'journal file exists => recover from it' decision is emulated (the rig calls recover_with_journal on the cut journal)"],
+        }
+    }
+}
+
+/// set of message counts j such that "state after j whole messages" is a legitimate outcome of
+/// a stop at row boundary `b`
+fn allowed_states(t: &Trace, b: u64) -> (usize, usize) {
+    let n = t.rcodes.len();
+    // every message whose last row is durable may have been acknowledged
+    let mut lo = 0;
+    for i in 0..n {
+        if t.rows_after[i] <= b {
+            lo = i + 1;
+        } else {
+            break;
+        }
+    }
+    let mut hi = lo;
+    for i in lo..n {
+        if t.rows_before[i] < b || t.rows_after[i] == t.rows_before[i] && t.rows_before[i] <= b {
+            hi = i + 1;
+        } else {
+            break;
+        }
+    }
+    (lo, hi)
+}
+
+async fn recover(u: &Universe, rows: &[Row]) -> Result<(SqliteZoneHandler<SimProvider>, Journal), String> {
+    let j = journal_from_rows(rows);
+    let mut h = new_handler(u, None, AxfrPolicy::AllowAll).await;
+    h.recover_with_journal(&j).await.map_err(|e| e.to_string())?;
+    Ok((h, j))
+}
+
+async fn c14_scenario(p: C14Plan) {
+    let u = universe();
+    let init = initial_records(&u, p.initial_serial);
+    let mut handler = new_handler(&u, Some(&init), AxfrPolicy::AllowAll).await;
+    let hooked = Arc::new(Mutex::new(Hooked::default()));
+    let journal = new_journal();
+    install_hooks(&journal, hooked.clone());
+    handler.set_journal(journal).await;
+    let server = Server::new(&u, handler);
+    if let Err(e) = server.handler.persist_to_journal().await {
+        exec::violate("C14.harness", "", format!("persist: {e}"));
+        return;
+    }
+    let dump_rows = hooked.lock().unwrap().rows;
+    let disk_full = p.disk_full_before.map(|d| (d, p.disk_full_slack));
+    let t = match run_history(&server, &u, &p.msgs, &hooked, 0x2000, disk_full).await {
+        Ok(t) => t,
+        Err(e) => {
+            exec::violate("C14.harness", "", e);
+            return;
+        }
+    };
+    let all_rows = {
+        let g = server.handler.journal().await;
+        read_rows(g.as_ref().expect("journal"))
+    };
+    let mut boundaries: Vec<u64> = hooked.lock().unwrap().boundaries.clone();
+    boundaries.push(0);
+    boundaries.push(all_rows.len() as u64);
+    boundaries.sort_unstable();
+    boundaries.dedup();
+    boundaries.retain(|b| *b <= all_rows.len() as u64);
+    exec::count_n("probe.crash_points", boundaries.len() as u64);
+    let disk_full_hit = t.rcodes.iter().any(|rc| *rc == ResponseCode::ServFail) && p.disk_full_before.is_some();
+    if disk_full_hit {
+        exec::count("fault.disk_full_hit");
+    }
+    // an acknowledged (NOERROR) message must have all its rows durable: trivially true by
+    // construction of rows_after; a refused message must not have changed the live zone
+    for (i, rc) in t.rcodes.iter().enumerate() {
+        if *rc != ResponseCode::NoError && t.states[i + 1] != t.states[i] {
+            let shape = if *rc == ResponseCode::ServFail && p.disk_full_before.is_some() { "servfail-after-disk-full" } else { "refused" };
+            if exec::violate("C14.refused-changes-zone", shape, format!("message {i} answered {rc:?} but the live zone changed: {}", diff_zone(&t.states[i + 1].0, &t.states[i].0))) {
+                return;
+            }
+        }
+    }
+    let post_ix = if boundaries.is_empty() { 0 } else { (p.post_pick as usize) % boundaries.len() };
+    for (bi, b) in boundaries.iter().copied().enumerate() {
+        if b == 0 {
+            // a journal without any row: what the server does with it at start-up is decided in
+            // try_from_config, which part `startup` exercises with real files
+            exec::count("probe.crash_before_first_row");
+            continue;
+        }
+        exec::count("fault.crash");
+        let rows = &all_rows[..b as usize];
+        let (lo, hi) = allowed_states(&t, b);
+        // classify where this boundary lies
+        let inflight = (0..t.rcodes.len()).find(|i| t.rows_before[*i] < b && b < t.rows_after[*i]);
+        let place = if b < dump_rows {
+            "inside-initial-dump".to_string()
+        } else if let Some(i) = inflight {
+            let n_upd = p.msgs[i].update.len() as u64;
+            let done = b - t.rows_before[i];
+            let base = if done < n_upd { "between-update-rows" } else { "before-soa-row" };
+            if disk_full_hit { format!("{base}+disk-full") } else { base.to_string() }
+        } else if disk_full_hit {
+            "message-boundary+disk-full".to_string()
+        } else {
+            "message-boundary".to_string()
+        };
+        exec::count(&format!("probe.crash_at.{}", place.split('+').next().unwrap()));
+        let (rec_handler, rec_journal) = match recover(&u, rows).await {
+            Ok(x) => x,
+            Err(e) => {
+                if exec::violate("C14.recovery-fails", &place, format!("journal cut after {b} of {} rows: recover_with_journal failed: {e}", all_rows.len())) {
+                    return;
+                }
+                continue;
+            }
+        };
+        let rec_server = Server::new(&u, rec_handler);
+        let (z, s, _) = rec_server.dump().await;
+        let matched = if b < dump_rows { if t.states[0] == (z.clone(), s) { Some(0) } else { None } } else { (lo..=hi).find(|j| t.states[*j] == (z.clone(), s)) };
+        let Some(j) = matched else {
+            let near = &t.states[lo.min(t.states.len() - 1)];
+            let content_only = (lo..=hi).any(|j| t.states[j].0 == z);
+            let what = if content_only { format!("content equals a message boundary but serial {s} does not (expected {})", near.1) } else { diff_zone(&z, &near.0) };
+            let kind = if content_only { "serial" } else { "content" };
+            if exec::violate(
+                "C14.recovered-state",
+                &format!("{place}:{kind}"),
+                format!("journal cut after {b} of {} rows (dump {dump_rows} rows; rows per message {:?}): recovered zone is not the zone after any whole number of messages in {lo}..={hi}: {what}", all_rows.len(), t.rows_after),
+            ) {
+                return;
+            }
+            continue;
+        };
+        // post-recovery behaviour equals a never-crashed twin's
+        if bi == post_ix && !p.post.is_empty() && b >= dump_rows {
+            // twin: fresh server, same initial zone, first j messages, no crash
+            let mut th = new_handler(&u, Some(&init), AxfrPolicy::AllowAll).await;
+            th.set_journal(new_journal()).await;
+            let twin = Server::new(&u, th);
+            let _ = twin.handler.persist_to_journal().await;
+            let dummy = Arc::new(Mutex::new(Hooked::default()));
+            let tt = match run_history(&twin, &u, &p.msgs[..j], &dummy, 0x2000, None).await {
+                Ok(x) => x,
+                Err(e) => {
+                    exec::violate("C14.harness", "", e);
+                    return;
+                }
+            };
+            if tt.states.last() != Some(&t.states[j]) {
+                // (can only differ when the disk-full fault changed the original run)
+                exec::count("probe.twin_not_comparable");
+                continue;
+            }
+            // the recovered server continues on the recovered journal
+            let mut rh = match recover(&u, rows).await {
+                Ok((h, jn)) => {
+                    let mut h = h;
+                    h.set_journal(jn).await;
+                    h
+                }
+                Err(_) => continue,
+            };
+            rh.set_allow_update(true);
+            let rsrv = Server::new(&u, rh);
+            let a = run_history(&rsrv, &u, &p.post, &dummy, 0x3000, None).await;
+            let bb = run_history(&twin, &u, &p.post, &dummy, 0x3000, None).await;
+            match (a, bb) {
+                (Ok(a), Ok(bb)) => {
+                    exec::count("probe.post_recovery_histories");
+                    if a.rcodes != bb.rcodes || a.states.last() != bb.states.last() {
+                        if exec::violate(
+                            "C14.post-recovery",
+                            &place,
+                            format!("after recovery at row {b} (= state after {j} messages) the post history answered {:?} / never-crashed twin {:?}; final zones differ: {}", a.rcodes, bb.rcodes, diff_zone(&a.states.last().unwrap().0, &bb.states.last().unwrap().0)),
+                        ) {
+                            return;
+                        }
+                    }
+                }
+                (Err(e), _) | (_, Err(e)) => {
+                    exec::violate("C14.harness", "", e);
+                    return;
+                }
+            }
+        }
+        drop(rec_journal);
+    }
+}
+
+pub fn def_c14() -> CheckDef {
+    CheckDef { id: "C14", level: "fault_enumeration", parts: vec![Box::new(C14Part)] }
+}
